@@ -46,10 +46,8 @@ def run(ctx):
                             'not returning within 2*MAX_SIGNUM+12 own steps / Forever::next not ending after close() returned')
 
 
-def async_probe(ctx):
-    """Dynamic monitor on the real adapters: signal-hook-tokio / signal-hook-async-std built as path
-    dependencies of the repository under test (offline, crates from the cargo cache), Stream::poll_next
-    polled by hand with a counting waker (harness_async/src/main.rs)."""
+def async_build_run(ctx):
+    """builds harness_async against the repository and runs it: (rc, output) or None when it cannot be built offline"""
     src = os.path.join(common.ROOT, 'harness_async')
     d = os.path.join(common.BUILD, 'c11_async')
     os.makedirs(d, exist_ok=True)
@@ -63,10 +61,41 @@ def async_probe(ctx):
         if any(k in out for k in ('no matching package', 'failed to download', 'failed to select a version', "can't be accessed in offline mode")):
             ctx.notes.append('async adapter probe skipped: tokio/async-io do not build offline here')
             ctx.coverage['async_adapter_probe'] = 'skipped (crates not available offline)'
-            return
+            return None
         ctx.correspondence('async adapters: probe builds against the adapters of the repository', False, out[-1500:])
-        return
+        return None
     rc, out, _ = common.sh([os.path.join(d, 'target', 'debug', 'p_c11_async')], timeout=120)
+    return rc, out
+
+
+def adapter_replay(ctx, case):
+    r = async_build_run(ctx)
+    if r is None:
+        print('the adapter probe cannot be built here')
+        return 1
+    print(r[1])
+    ad, sit = case['adapter'], case['situation']
+    for l in r[1].split('\n'):
+        t = l.split()
+        if len(t) >= 4 and t[0] == ad and t[1] == sit:
+            row = dict(x.split('=', 1) for x in t[2:])
+            bad = (row.get('events') == '0') if ad == 'mio' else (row.get('first') == 'Pending' and int(row['wakes1']) <= int(row['wakes0']))
+            if bad:
+                print('REPRODUCED: %s adapter, situation %s: parked and never woken' % (ad, sit))
+            return 1 if bad else 0
+    print('no row for', ad, sit)
+    return 1
+
+
+def async_probe(ctx, only=None):
+    """Dynamic monitor on the real adapters: signal-hook-tokio / signal-hook-async-std built as path
+    dependencies of the repository under test (offline, crates from the cargo cache), Stream::poll_next
+    polled by hand with a counting waker; signal-hook-mio at a real mio::Poll (harness_async/src/main.rs).
+    only = the situations whose stranding is reported as a violation by the calling check."""
+    r = async_build_run(ctx)
+    if r is None:
+        return
+    rc, out = r
     rows = {}
     for l in out.split('\n'):
         t = l.split()
@@ -83,7 +112,9 @@ def async_probe(ctx):
                 bad.append('%s %s: no result (rc=%d)' % (ad, sit, rc))
                 continue
             fired = int(r['wakes1']) > int(r['wakes0'])
-            if r['first'] == 'Pending' and not fired:
+            if only is not None and sit not in only:
+                ctx.traces += 1
+            elif r['first'] == 'Pending' and not fired:
                 ctx.violation({'monitor': 'adapter-stranded', 'adapter': ad, 'situation': sit},
                               '%s adapter: poll_next returned Poll::Pending and the waker never fired after the later %s' % (ad, 'raise' if sit in ('S1', 'S5') else 'close()'),
                               {'adapter': ad, 'situation': sit, 'row': r})
@@ -105,7 +136,7 @@ def async_probe(ctx):
         r = mio.get(sit)
         if r is None:
             mbad.append('mio %s: no result (rc=%d)' % (sit, rc))
-        elif sit != 'M2' and r['events'] == '0':
+        elif sit != 'M2' and r['events'] == '0' and (only is None or sit in only):
             ctx.violation({'monitor': 'adapter-stranded', 'adapter': 'mio', 'situation': sit},
                           'mio adapter: a delivery after registration with the Poll produced no readable event within 2 s (the poller stays asleep)',
                           {'adapter': 'mio', 'situation': sit, 'row': r})
@@ -123,6 +154,8 @@ def replay(ctx, path):
     sc = case.get('case', {}).get('scenario')
     if case.get('case', {}).get('close_sweep'):
         return L.close_replay(ctx, case['case'], L.C11_KINDS)
+    if case.get('case', {}).get('adapter'):
+        return adapter_replay(ctx, case['case'])
     if case.get('case', {}).get('replay', '').endswith('p_closeafter'):
         print('run:', case['case']['replay'])
         import subprocess
